@@ -6,7 +6,7 @@ CONSTANTS
   Vals <- ValsDeep
   Cfgs <- CfgsDeep
   MaxRound = 2
-  FailKinds <- AllFails
+  FailKinds <- OneFail
   AnyOrder = FALSE
   Canon = TRUE
 VIEW View
